@@ -3,6 +3,7 @@ CONSTANTS
  Variants <- HVariants
  NBk = 3
  Inits <- HInits
+ InoutInits <- HInits
  RouteInits <- HInits
  Runs = 2
  QueuePersists = TRUE
@@ -16,6 +17,7 @@ CONSTANTS
  DevSeqOpenEarly = FALSE
  DevLinkDirect = FALSE
  DevBackupCount = FALSE
+ DevInplaceInput = FALSE
  DevRouteDiscard = FALSE
 INVARIANT HistoryClean
 INVARIANT NoLoss
